@@ -505,6 +505,43 @@ func c5want(t *c5type, m *meta.Type, v c5value) val.Value {
 	return w
 }
 
+// the typed value the harness hands to Selection.Set; for enumeration / bits it is built by hand
+// and need not be declared
+func c5typed(t *c5type, m *meta.Type, v c5value) val.Value {
+	switch t.base {
+	case "enumeration":
+		s := v.items[0]
+		if w := c5want(t, m, v); w != nil {
+			return w
+		}
+		if s.kind == "ename" {
+			return val.Enum{Id: 99, Label: s.s}
+		}
+		return val.Enum{Id: int(s.z.Int64()), Label: "undeclared"}
+	case "bits":
+		if w := c5want(t, m, v); w != nil {
+			b := w.(val.Bits)
+			b.Labels = v.items[0].names
+			return b
+		}
+		var mask uint64
+		for _, n := range v.items[0].names {
+			found := false
+			for i, b := range t.bits {
+				if b == n {
+					mask |= 1 << uint(i)
+					found = true
+				}
+			}
+			if !found && n != "" {
+				mask |= 1 << 40
+			}
+		}
+		return val.Bits{Positions: mask, Labels: v.items[0].names}
+	}
+	return c5want(t, m, v)
+}
+
 func c5same(got, want val.Value) bool {
 	if got == nil || want == nil {
 		return got == nil && want == nil
@@ -550,11 +587,8 @@ func c5write(path int, t *c5type, m *meta.Module, b *node.Browser, v c5value) (a
 		}
 		return true, sel.SetValue(v.native(t))
 	case 2:
-		if t.base == "enumeration" || t.base == "bits" {
-			return false, nil
-		}
 		lm := meta.Find(m, "l").(meta.Leafable)
-		w := c5want(t, lm.Type(), v)
+		w := c5typed(t, lm.Type(), v)
 		if w == nil {
 			return false, nil
 		}
@@ -631,6 +665,17 @@ func c5observe(path int, t *c5type, m *meta.Module, pre *c5value, v c5value) (o 
 		got, _ = b.Root().GetValue("l")
 	}()
 	want := c5want(t, lm.Type(), v)
+	if path == 2 {
+		want = c5typed(t, lm.Type(), v)
+		// an undeclared enum / bits value cannot be read back through the library (the read
+		// converts again); look at what the map holds
+		if raw, ok := data["l"].(val.Value); ok && (t.base == "enumeration" || t.base == "bits") {
+			got = raw
+		}
+		if u, ok := data["l"].(uint64); ok && t.base == "bits" {
+			got = val.Bits{Positions: u}
+		}
+	}
 	switch {
 	case o.store == 2:
 	case want != nil && c5same(got, want):
@@ -1223,15 +1268,20 @@ func C05(ctx *core.Ctx) error {
 				if len(row.obs) == 0 {
 					continue
 				}
-				obsT := make([]string, len(row.obs))
-				for i, o := range row.obs {
-					obsT[i] = emit.Pair(emit.Z(int64(o.outcome)), emit.Z(int64(o.store)))
+				var obsT, tobsT []string
+				for _, o := range row.obs {
+					p := emit.Pair(emit.Z(int64(o.outcome)), emit.Z(int64(o.store)))
+					if o.path == 2 {
+						tobsT = append(tobsT, p)
+					} else {
+						obsT = append(obsT, p)
+					}
 				}
 				preT := "None"
 				if pre != nil {
 					preT = emit.Some(pre.term())
 				}
-				row.term = emit.App("Row", preT, v.term(), emit.List(obsT))
+				row.term = emit.App("Row", preT, v.term(), emit.List(obsT), emit.List(tobsT))
 				rows = append(rows, row)
 			}
 		}
